@@ -94,7 +94,15 @@ impl<'a> Gen<'a> {
         let x = self.var("p");
         let y = self.var("q");
         let inner = vars.with(&x, K::Num).with(&y, K::Num);
-        format!("(function({}, {}) {})({}: {}, {}: {})", x, y, self.num(d - 1, &inner), y, self.num(d - 1, vars), x, self.num(d - 1, vars))
+        // parameters declared in either order (alphabetical or not), arguments named in either order
+        let (d1, d2) = if self.rng.chance(1, 2) { (x.clone(), y.clone()) } else { (y.clone(), x.clone()) };
+        let (a1, a2) = if self.rng.chance(1, 2) { (x.clone(), y.clone()) } else { (y.clone(), x.clone()) };
+        let body = match self.rng.below(3) {
+          0 => format!("({} - {})", x, y),
+          1 => format!("[{}, {}]", y, x),
+          _ => self.num(d - 1, &inner),
+        };
+        format!("(function({}, {}) {})({}: {}, {}: {})", d1, d2, body, a1, self.num(d - 1, vars), a2, self.num(d - 1, vars))
       }
       9 => {
         if self.rng.chance(1, 2) {
@@ -124,11 +132,30 @@ impl<'a> Gen<'a> {
       12 => {
         // typed parameters: the argument is coerced (null, singleton wrap / unwrap)
         let x = self.var("p");
-        let (t, k) = *self.rng.pick(&[("number", K::Num), ("string", K::Any), ("list<number>", K::List), ("Any", K::Num)]);
-        let body = if k == K::List { format!("{}[1]", x) } else { self.num(d - 1, &vars.with(&x, k)) };
-        let arg = match self.rng.below(3) {
+        let (t, k) = *self.rng.pick(&[
+          ("number", K::Num),
+          ("string", K::Any),
+          ("list<number>", K::List),
+          ("Any", K::Num),
+          ("list<Any>", K::List),
+          ("list<list<number>>", K::List),
+          ("context<a: number>", K::Any),
+        ]);
+        let body = if k == K::List && self.rng.chance(1, 2) {
+          format!("{}[1]", x)
+        } else if k == K::List || k == K::Any {
+          x.clone()
+        } else {
+          self.num(d - 1, &vars.with(&x, k))
+        };
+        let arg = match self.rng.below(8) {
           0 => self.num(d - 1, vars),
           1 => format!("[{}]", self.num(d - 1, vars)),
+          2 => "[]".to_string(),
+          3 => "[null]".to_string(),
+          4 => format!("[{}, \"a\"]", self.num(0, vars)),
+          5 => "[[]]".to_string(),
+          6 => format!("{{a: {}}}", self.any(0, vars)),
           _ => self.any(d - 1, vars),
         };
         if self.rng.chance(1, 2) {
@@ -514,6 +541,16 @@ pub fn corpus() -> Vec<&'static str> {
     "{a: 1, b: a + 1, c: b * 2}",
     "{f: function(x) x + 1, r: f(2)}.r",
     "(function(a, b) a - b)(b: 1, a: 5)",
+    "(function(b, a) b - a)(a: 1, b: 10)",
+    "(function(loan amount, interest paid) loan amount - interest paid)(loan amount: 100, interest paid: 30)",
+    "(function(z, y, x) [z, y, x])(x: 1, y: 2, z: 3)",
+    "(function(x: list<number>) x)([])",
+    "(function(x: list<number>) x)([null])",
+    "(function(x: list<Any>) x)([1, 2])",
+    "(function(x: list<list<number>>) x)([[]])",
+    "{a: 1, b: 2} = {a: \"x\", c: 2}",
+    "{a: 1, b: 2} != {a: \"x\", c: 2}",
+    "{a: 1, b: 2} = {a: 1, c: 2}",
     "for x in [1,2,3] return if x = 1 then 1 else partial[-1] * x",
     "lc[b = 2].a",
     "li[item = 1]",
@@ -574,6 +611,7 @@ pub fn run_with(cfg: &Cfg, property: &str) -> Report {
     let values = [
       "1", "\"a\"", "true", "null", "d1", "t1", "dt1", "ym1", "dd1", "r1", "[]", "[1]", "[1, \"a\"]", "[[1]]", "{}", "{a: 1}", "c1", "l1", "lc",
       "function(x) x", "function(x: number) x + 1", "[d1..d1]", "[\"a\"..\"b\")", "nn",
+      "{a: 1, b: 2}", "{a: \"x\", c: 2}", "{a: \"x\", b: 2}", "{a: null}", "{A: 1}",
     ];
     let types = [
       "number", "string", "boolean", "date", "time", "date and time", "years and months duration", "days and time duration", "Any", "Null",
